@@ -10,18 +10,60 @@ use vkit::refmath as rf;
 use vkit::vk::{self, MatN};
 use vkit::*;
 
-const K: f64 = 512.0;
+pub(crate) const K: f64 = 512.0;
+/// angle-axis round trip: rounding budget in units of eps / max(sin(angle/2), sqrt(eps))
+const AA_K: f64 = 64.0;
 
-fn qa<S: Copy>(q: Quaternion<S>) -> [S; 4] {
+/// `|got - want| <= tol` with an *absolute* tolerance the caller derived for the regime at hand (so that tiny
+/// magnitudes are not compared against `1 + max`); records observed error / tolerance like `vkit::dom::close`.
+pub(crate) fn near(cx: &mut Cx, got: f64, want: f64, tol: f64) -> bool {
+    cx.count();
+    if got == want {
+        return true;
+    }
+    let d = (got - want).abs();
+    if !d.is_finite() {
+        return false;
+    }
+    if tol > 0.0 {
+        cx.note_err(d / tol);
+    }
+    d <= tol
+}
+macro_rules! check_near {
+    ($cx:expr, $got:expr, $want:expr, $tol:expr, $($arg:tt)*) => {{
+        let (g, w, tl): (f64, f64, f64) = ($got, $want, $tol);
+        if !$crate::near($cx, g, w, tl) {
+            return Err(vkit::Fail::Violation(format!("{}: got {:e}, want {:e} (|diff| {:.3e} > tolerance {:.3e})", format!($($arg)*), g, w, (g - w).abs(), tl)));
+        }
+    }};
+}
+/// `$got`: array of domain scalars, `$want`: array of f64 of the same length.
+macro_rules! check_near_vec {
+    ($cx:expr, $got:expr, $want:expr, $tol:expr, $($arg:tt)*) => {{
+        let g: Vec<f64> = $got.iter().map(|x| vkit::Dom::f(*x)).collect();
+        let w = $want;
+        let tl: f64 = $tol;
+        for i in 0..g.len() {
+            if !$crate::near($cx, g[i], w[i], tl) {
+                return Err(vkit::Fail::Violation(format!("{}: element {} differs: got {:?}, want {:?} (|diff| {:.3e} > tolerance {:.3e})", format!($($arg)*), i, g, w, (g[i] - w[i]).abs(), tl)));
+            }
+        }
+    }};
+}
+
+mod regime;
+
+pub(crate) fn qa<S: Copy>(q: Quaternion<S>) -> [S; 4] {
     [q.w, q.x, q.y, q.z]
 }
-fn aq<S: Copy>(a: &[S; 4]) -> Quaternion<S> {
+pub(crate) fn aq<S: Copy>(a: &[S; 4]) -> Quaternion<S> {
     Quaternion { w: a[0], x: a[1], y: a[2], z: a[3] }
 }
 fn conj<S: Dom>(a: &[S; 4]) -> [S; 4] {
     [a[0], -a[1], -a[2], -a[3]]
 }
-fn norm2<S: Dom>(a: &[S; 4]) -> S {
+pub(crate) fn norm2<S: Dom>(a: &[S; 4]) -> S {
     a[0] * a[0] + a[1] * a[1] + a[2] * a[2] + a[3] * a[3]
 }
 fn gen_q<S: Dom>(t: &mut Tape) -> [S; 4] {
@@ -37,10 +79,20 @@ fn rotate_ref<S: Dom>(q: &[S; 4], v: &[S; 3]) -> [S; 3] {
     [r[1], r[2], r[3]]
 }
 /// Rational point of the unit 3-sphere (w, x, y, z) by inverse stereographic projection.
-fn unit_q<S: Dom>(t: &mut Tape) -> [S; 4] {
-    let a = S::small(t, 6);
-    let b = S::small(t, 6);
-    let c = S::small(t, 6);
+fn unit_q<S: Dom>(t: &mut Tape, cx: &mut Cx) -> [S; 4] {
+    let mut a = S::small(t, 6);
+    let mut b = S::small(t, 6);
+    let mut c = S::small(t, 6);
+    if t.chance(64) {
+        // near-identity regime: the stereographic parameters scaled exactly by 2^-k (rotation angle ~ 2^(2-k)); after the
+        // component rotation below also "next to a half turn about a coordinate axis"
+        let k = t.int(1, if S::EXACT { 8 } else { 40 }) as i32;
+        let s = vkit::regimes::pow2::<S>(-k);
+        a = a * s;
+        b = b * s;
+        c = c * s;
+        cx.label("unit quaternion next to +-1, +-i, +-j, +-k");
+    }
     let n = a * a + b * b + c * c;
     let d = S::one() + n;
     let two = S::i(2);
@@ -112,8 +164,8 @@ fn algebra<S: Dom>(t: &mut Tape, cx: &mut Cx) -> CaseResult {
 }
 
 fn action<S: Dom>(t: &mut Tape, cx: &mut Cx) -> CaseResult {
-    let p = unit_q::<S>(t);
-    let q = unit_q::<S>(t);
+    let p = unit_q::<S>(t, cx);
+    let q = unit_q::<S>(t, cx);
     let v: [S; 3] = vk::gen_vec(t, 9);
     let w = S::any(t, 9);
     cx.set_nontrivial(p.iter().all(|x| !x.is_zero()) && q.iter().all(|x| !x.is_zero()) && v.iter().all(|x| !x.is_zero()));
@@ -149,9 +201,42 @@ fn action<S: Dom>(t: &mut Tape, cx: &mut Cx) -> CaseResult {
     Ok(())
 }
 
+#[derive(Clone, Copy, PartialEq, Debug)]
+enum PairClass {
+    Antiparallel,
+    Parallel,
+    Generic,
+    NearlyParallel,
+    NearlyAntiparallel,
+}
+
+/// A float pair (from, to) enclosing exactly the angle `delta` (to rounding of the cast), or pi - delta when `anti`.
+fn near_pair<S: Dom>(t: &mut Tape, delta: f64, anti: bool, mu: S) -> ([S; 3], [S; 3]) {
+    let mut f: [S; 3] = vk::gen_vec(t, 9);
+    if rf::dot(&f, &f).f() < 1e-2 {
+        f = [S::i(1), S::i(2), S::i(-3)];
+    }
+    let fd = regime::f3(&f);
+    let fl = rf::dot(&fd, &fd).sqrt();
+    let g = [t.range_f64(-1.0, 1.0), t.range_f64(-1.0, 1.0), t.range_f64(-1.0, 1.0)];
+    let mut p = rf::cross(&fd, &g);
+    if rf::dot(&p, &p).sqrt() < 1e-2 * fl {
+        // g (nearly) parallel to f: take the coordinate axis along the smallest component of f instead
+        let i = (0..3).min_by(|&a, &b| fd[a].abs().partial_cmp(&fd[b].abs()).unwrap()).unwrap();
+        let mut e = [0.0; 3];
+        e[i] = 1.0;
+        p = rf::cross(&fd, &e);
+    }
+    let pl = rf::dot(&p, &p).sqrt();
+    let sg = if anti { -1.0 } else { 1.0 };
+    let td = delta.tan() * fl / pl;
+    let to = [regime::cast::<S>(sg * (fd[0] + td * p[0])) * mu, regime::cast::<S>(sg * (fd[1] + td * p[1])) * mu, regime::cast::<S>(sg * (fd[2] + td * p[2])) * mu];
+    (f, to)
+}
+
 /// Direction pairs. Returns (from, to, class).
-fn gen_pair<S: Dom>(t: &mut Tape, cx: &mut Cx) -> ([S; 3], [S; 3]) {
-    let sel = t.below(8);
+fn gen_pair<S: Dom>(t: &mut Tape, cx: &mut Cx) -> ([S; 3], [S; 3], PairClass) {
+    let sel = t.below(10);
     // vectors whose relevant partial sums of squares are all perfect squares, per 180-degree sub-branch
     const ANTI: [[i64; 3]; 12] = [
         [9, 12, 8],  // |x| > |z|, x^2+y^2 = 15^2, total 17^2
@@ -169,6 +254,7 @@ fn gen_pair<S: Dom>(t: &mut Tape, cx: &mut Cx) -> ([S; 3], [S; 3]) {
     ];
     // exact domains: any positive rational factor; floats: powers of two, so that scaled copies stay *exactly* (anti)parallel
     let lam = |t: &mut Tape| if S::EXACT { S::q(t.int(1, 9), t.pick(&[1i64, 1, 2, 3, 7])) } else { let e = t.int(-6, 6); if e >= 0 { S::i(1 << e) } else { S::q(1, 1 << -e) } };
+    let f32ish = S::eps() > 1e-10;
     match sel {
         0 | 1 | 2 => {
             // exactly antiparallel
@@ -178,13 +264,31 @@ fn gen_pair<S: Dom>(t: &mut Tape, cx: &mut Cx) -> ([S; 3], [S; 3]) {
             let (a, b) = (lam(t), lam(t));
             let from = [S::i(f[0]) * a, S::i(f[1]) * a, S::i(f[2]) * a];
             let to = [-S::i(f[0]) * b, -S::i(f[1]) * b, -S::i(f[2]) * b];
-            (from, to)
+            (from, to, PairClass::Antiparallel)
         }
         3 => {
             cx.label("parallel");
             let (f, _) = gens::pythagorean3(t);
             let (a, b) = (lam(t), lam(t));
-            ([S::i(f[0]) * a, S::i(f[1]) * a, S::i(f[2]) * a], [S::i(f[0]) * b, S::i(f[1]) * b, S::i(f[2]) * b])
+            ([S::i(f[0]) * a, S::i(f[1]) * a, S::i(f[2]) * a], [S::i(f[0]) * b, S::i(f[1]) * b, S::i(f[2]) * b], PairClass::Parallel)
+        }
+        4 if !S::EXACT => {
+            // enclosed angle log-uniform in [2^-min_exp, 2^-2]: the rotation is (numerically) next to the identity
+            cx.label("nearly-parallel");
+            let e = t.int(3, if f32ish { 20 } else { 45 }) as i32;
+            let delta = (2.0f64).powi(-e) * (1.0 + t.unit_f64());
+            let mu = lam(t);
+            let (f, g) = near_pair::<S>(t, delta, false, mu);
+            (f, g, PairClass::NearlyParallel)
+        }
+        5 if !S::EXACT => {
+            // enclosed angle pi - delta, delta log-uniform down to 8 sqrt(eps) (below that `|f||t| + f.t` is rounding noise, see assumptions)
+            cx.label("nearly-antiparallel");
+            let e = t.int(3, if f32ish { 8 } else { 22 }) as i32;
+            let delta = (2.0f64).powi(-e) * (1.0 + t.unit_f64());
+            let mu = lam(t);
+            let (f, g) = near_pair::<S>(t, delta, true, mu);
+            (f, g, PairClass::NearlyAntiparallel)
         }
         _ => {
             if S::EXACT || t.bool() {
@@ -196,54 +300,63 @@ fn gen_pair<S: Dom>(t: &mut Tape, cx: &mut Cx) -> ([S; 3], [S; 3]) {
                 let (l, mu) = (lam(t), lam(t));
                 let from = rf::scale(&rf::matvec(&r, &[S::one(), S::zero(), S::zero()]), l);
                 let to = rf::scale(&rf::matvec(&r, &[c, s, S::zero()]), mu);
-                (from, to)
+                (from, to, PairClass::Generic)
             } else {
                 cx.label("generic-random");
                 let mut f: [S; 3] = vk::gen_vec(t, 9);
                 let mut g: [S; 3] = vk::gen_vec(t, 9);
                 if rf::dot(&f, &f).f() < 1e-2 { f = [S::i(1), S::i(2), S::i(-3)]; }
                 if rf::dot(&g, &g).f() < 1e-2 { g = [S::i(2), S::i(-1), S::i(1)]; }
-                if t.chance(32) {
-                    // nearly antiparallel
-                    cx.label("nearly-antiparallel");
-                    let e = <S as num_traits::NumCast>::from(1e-3).unwrap();
-                    g = [-f[0] + e, -f[1], -f[2] + e];
-                }
-                (f, g)
+                (f, g, PairClass::Generic)
             }
         }
     }
 }
 
 fn from_to<S: Dom>(t: &mut Tape, cx: &mut Cx) -> CaseResult {
-    let (from, to) = gen_pair::<S>(t, cx);
+    let (from0, to0, class) = gen_pair::<S>(t, cx);
+    // unit of length: `from` scaled exactly by 2^a, `to` by 2^b (independently: very different lengths, tiny and huge pairs).
+    // |from|^2 |to|^2 and the squares inside `normalized` must stay inside the normal range: f32 16, f64 200, Rat 8 (i128 headroom)
+    let kmax = match S::NAME { "f32" => 16, "f64" => 200, _ => 8 };
+    let (ea, eb) = (vkit::regimes::scale_exp(t, kmax), vkit::regimes::scale_exp(t, kmax));
+    let (sa, sb) = (vkit::regimes::pow2::<S>(ea), vkit::regimes::pow2::<S>(eb));
+    let from = [from0[0] * sa, from0[1] * sa, from0[2] * sa];
+    let to = [to0[0] * sb, to0[1] * sb, to0[2] * sb];
+    if ea != 0 || eb != 0 {
+        cx.label("from/to scaled by 2^a, 2^b");
+        cx.label(vkit::regimes::scale_label(ea));
+        cx.label(vkit::regimes::scale_label(eb));
+    }
     let (fl, tl) = (rf::dot(&from, &from).f().sqrt(), rf::dot(&to, &to).f().sqrt());
-    sample!(cx, "{} from={:?} to={:?}", S::NAME, from, to);
+    sample!(cx, "{} {:?} from={:?} to={:?} (from scaled by 2^{}, to by 2^{})", S::NAME, class, from, to, ea, eb);
     cx.set_nontrivial(from.iter().filter(|x| !x.is_zero()).count() >= 2);
     let q = Quaternion::<S>::rotation_from_to_3d(vk::v3(&from), vk::v3(&to));
     let a = qa(q);
-    check_close!(cx, S, norm2(&a), S::one(), 1.0, K, "rotation_from_to_3d returns a unit quaternion");
+    check_close!(cx, S, norm2(&a), S::one(), 1.0, K, "rotation_from_to_3d returns a unit quaternion [from={:?} to={:?}]", from, to);
     let img = rotate_ref(&a, &from);
-    // image of `from` is a positive multiple of `to`: cross = 0 and dot > 0
+    // image of `from` is a positive multiple of `to`: cross = 0 and dot > 0; everything relative to |from||to|
     let cr = rf::cross(&img, &to);
-    let sc = (fl * tl).max(1.0) * 4.0;
-    // float conditioning: the nearly antiparallel class amplifies rounding by 1/|from+to|; widen there
+    let sc = fl * tl * 4.0;
+    // float conditioning: w = |f||t| + f.t and f x t carry an absolute rounding error ~eps |f||t|, so the direction of the
+    // image is off by ~eps / |f^ + t^| for nearly antiparallel pairs; when |f^ + t^|^2 <= 64 eps the branch decision of
+    // the 180-degree guard itself is rounding noise
+    let mut cond = 1.0;
     let k = if S::EXACT {
         1.0
     } else {
         let u: Vec<f64> = (0..3).map(|i| from[i].f() / fl + to[i].f() / tl).collect();
         let un = (u[0] * u[0] + u[1] * u[1] + u[2] * u[2]).sqrt();
         let exactly_opposite = (0..3).all(|i| from[i].f() * tl == -to[i].f() * fl) || (0..3).all(|i| (from[i].f() / from.iter().map(|x| x.f().abs()).fold(0.0, f64::max)) == -(to[i].f() / to.iter().map(|x| x.f().abs()).fold(0.0, f64::max)));
-        if !exactly_opposite && un < 1e-3 {
-            discard!("precondition:opposite-within-1e-3-but-not-exactly (ill-conditioned in floats)");
+        if !exactly_opposite && un * un <= 64.0 * S::eps() {
+            discard!("precondition:opposite-within-8-sqrt-eps-but-not-exactly (|f||t| + f.t is rounding noise)");
         }
-        let cond = if exactly_opposite { 1.0 } else { (2.0 / un).max(1.0) };
-        (K * cond * cond).min(1e12)
+        cond = if exactly_opposite { 1.0 } else { (2.0 / un).max(1.0) };
+        (if class == PairClass::NearlyParallel { 32.0 } else if class == PairClass::NearlyAntiparallel { 64.0 } else { K }) * cond
     };
-    check_vec!(cx, S, cr, [S::zero(); 3], sc, k, "q*from is parallel to `to` (cross product)");
-    check!(cx, rf::dot(&img, &to) > S::zero(), "q*from points the same way as `to`: dot = {:?} (q={:?}, q*from={:?})", rf::dot(&img, &to), a, img);
+    check_vec!(cx, S, cr, [S::zero(); 3], 0.0, k * sc, "q*from is parallel to `to` (cross product, relative to |from||to|) [from={:?} to={:?} q={:?}]", from, to, a);
+    check!(cx, rf::dot(&img, &to) > S::zero(), "q*from points the same way as `to`: dot = {:?} (from={:?}, to={:?}, q={:?}, q*from={:?})", rf::dot(&img, &to), from, to, a, img);
     // vek's own application agrees
-    check_vec!(cx, S, vk::a3(&(q * vk::v3(&from))), img, fl.max(1.0) * 4.0, K, "q * from (vek) = reference");
+    check_vec!(cx, S, vk::a3(&(q * vk::v3(&from))), img, 0.0, K * fl * 4.0, "q * from (vek) = reference [from={:?} q={:?}]", from, a);
     // matrix flavours are the matrix of that quaternion
     let m3 = cm::Mat3::<S>::from(q).to_arr();
     check_mat!(cx, S, cm::Mat3::<S>::rotation_from_to_3d(vk::v3(&from), vk::v3(&to)).to_arr(), m3, 1.0, K, "col Mat3::rotation_from_to_3d");
@@ -253,22 +366,49 @@ fn from_to<S: Dom>(t: &mut Tape, cx: &mut Cx) -> CaseResult {
     check_mat!(cx, S, rm::Mat4::<S>::rotation_from_to_3d(vk::v3(&from), vk::v3(&to)).to_arr(), m4, 1.0, K, "row Mat4::rotation_from_to_3d");
     // the matrix maps from onto to as well
     let mi = rf::matvec(&m3, &from);
-    check_vec!(cx, S, rf::cross(&mi, &to), [S::zero(); 3], sc, k, "matrix * from parallel to `to`");
+    check_vec!(cx, S, rf::cross(&mi, &to), [S::zero(); 3], 0.0, k * sc, "matrix * from parallel to `to` [from={:?} to={:?}]", from, to);
     check!(cx, rf::dot(&mi, &to) > S::zero(), "matrix * from points the same way as `to`");
+    // the result depends on the two *directions* only: every operation commutes exactly with scaling by powers of two
+    if ea != 0 || eb != 0 {
+        let a0 = qa(Quaternion::<S>::rotation_from_to_3d(vk::v3(&from0), vk::v3(&to0)));
+        for i in 0..4 {
+            cx.count();
+            // bit-identical unless a square of a tiny component underflowed (f32 only): then one rounding may flip
+            if !(a[i] == a0[i] || (!S::EXACT && (a[i].f() - a0[i].f()).abs() <= 4.0 * S::eps() * cond * cond)) {
+                fail!("rotation_from_to_3d(2^{} from, 2^{} to) differs from rotation_from_to_3d(from, to) in component {}: {:?} vs {:?} [from={:?} to={:?}]", ea, eb, i, a, a0, from0, to0);
+            }
+        }
+    }
     Ok(())
 }
 
 /// Angle-axis extraction (floats): returns an angle and unit axis describing the same rotation.
 fn angle_axis<S: Dom>(t: &mut Tape, cx: &mut Cx) -> CaseResult {
-    let sel = t.below(10);
+    let sel = t.below(12);
     let pi = std::f64::consts::PI;
+    let f32ish = S::eps() > 1e-10;
+    let sign = if t.bool() { -1.0 } else { 1.0 };
+    let tiny = |t: &mut Tape, max_e: i64| (2.0f64).powi(-(t.int(3, max_e) as i32)) * (1.0 + t.unit_f64());
     let angle_f = match sel {
         0 => 0.0,
         1 => t.pick(&[pi / 2.0, -pi / 2.0, pi, -pi, 1.5 * pi, -1.5 * pi, 1.25 * pi, 1e-3, -1e-3]),
+        2 | 3 => {
+            cx.label("small angle");
+            sign * tiny(t, if f32ish { 30 } else { 60 })
+        }
+        4 => {
+            cx.label("next to a full turn");
+            sign * (2.0 * pi - tiny(t, if f32ish { 18 } else { 45 }))
+        }
+        5 => {
+            cx.label("next to a half turn");
+            sign * (pi + if t.bool() { 1.0 } else { -1.0 } * tiny(t, if f32ish { 18 } else { 45 }))
+        }
         _ => t.range_f64(-2.0 * pi + 1e-3, 2.0 * pi - 1e-3),
     };
     let cast = |x: f64| <S as num_traits::NumCast>::from(x).unwrap();
     let angle = cast(angle_f);
+    let angle_f = angle.f();
     let mut ax = [t.range_f64(-1.0, 1.0), t.range_f64(-1.0, 1.0), t.range_f64(-1.0, 1.0)];
     if t.chance(40) {
         ax = [[1.0, 0.0, 0.0], [0.0, -1.0, 0.0], [0.0, 0.0, 1.0]][t.below(3)];
@@ -278,28 +418,43 @@ fn angle_axis<S: Dom>(t: &mut Tape, cx: &mut Cx) -> CaseResult {
     }
     let axis = [cast(ax[0]), cast(ax[1]), cast(ax[2])];
     if angle_f.abs() > pi { cx.label("beyond-half-turn") } else { cx.label("within-half-turn") }
-    cx.set_nontrivial(angle_f.abs() > 1e-2);
-    sample!(cx, "{} angle={:?} axis={:?}", S::NAME, angle, axis);
-    let q = Quaternion::<S>::rotation_3d(angle, vk::v3(&axis));
+    let sh = (angle_f / 2.0).sin().abs();
+    let sh2 = sh * sh;
+    // the extraction can resolve the rotation at all once sin(angle/2) is above sqrt(eps)
+    cx.set_nontrivial(sh > 8.0 * S::eps().sqrt());
+    // the quaternion: vek's constructor, or built without vek (f64 sin/cos, cast)
+    let q = if t.bool() {
+        Quaternion::<S>::rotation_3d(angle, vk::v3(&axis))
+    } else {
+        let n = (ax[0] * ax[0] + ax[1] * ax[1] + ax[2] * ax[2]).sqrt();
+        let (s, c) = (angle_f / 2.0).sin_cos();
+        Quaternion { w: cast(c), x: cast(ax[0] / n * s), y: cast(ax[1] / n * s), z: cast(ax[2] / n * s) }
+    };
+    sample!(cx, "{} angle={:?} axis={:?} q={:?}", S::NAME, angle, axis, qa(q));
     let (a2, ax2) = q.into_angle_axis();
     let ax2a = vk::a3(&ax2);
+    check!(cx, ax2a.iter().all(|x| x.f().is_finite()) && a2.f().is_finite(), "into_angle_axis returned a non-finite value: angle {:?} axis {:?} (q={:?})", a2, ax2a, qa(q));
     // the axis is xyz / sqrt(1 - w^2): cancellation in 1 - w^2 = sin^2(angle/2) amplifies rounding by 1/sin^2(angle/2)
-    let sh2 = (angle_f / 2.0).sin().powi(2);
     if sh2 > 1e4 * S::eps() {
-        check_close!(cx, S, rf::dot(&ax2a, &ax2a), S::one(), 1.0, 1024.0 / sh2, "extracted axis is unit");
+        check_close!(cx, S, rf::dot(&ax2a, &ax2a), S::one(), 1.0, 1024.0 / sh2, "extracted axis is unit (q={:?})", qa(q));
+    } else if q.w.f().abs() == 1.0 {
+        // numerically the identity rotation (w = +-1 exactly): any axis would do, but it must be a unit vector
+        cx.label("near-identity:w=+-1");
+        check_close!(cx, S, rf::dot(&ax2a, &ax2a), S::one(), 1.0, 8.0, "extracted axis of a (numerically) identity rotation is unit (q={:?})", qa(q));
     } else {
-        // (numerically) the identity rotation: the axis is not determined by the quaternion to working precision;
-        // only "same rotation" below is asserted there
+        // 1 - w^2 has lost all but a few bits: the length of the axis is not determined to working precision;
+        // only "finite" above and "same rotation" below are asserted there
         cx.label("near-identity");
     }
     let slack = cast(64.0 * S::eps());
     check!(cx, a2 >= -slack && a2 <= cast(2.0 * pi) + slack, "extracted angle {:?} not in [0, 2pi]", a2);
-    // same rotation: compare the rotation matrices. acos near +-1 loses half the digits: tolerance sqrt(eps)-scaled
+    // same rotation: compare the rotation matrices. angle = 2 acos(w): an error eps in w becomes eps / sin(angle/2) in the
+    // angle, and sqrt(eps) at worst (w next to +-1); the axis xyz / sqrt(1 - w^2) times sin(angle'/2) likewise
     let q2 = Quaternion::<S>::rotation_3d(a2, ax2);
     let m1 = cm::Mat3::<S>::from(q).to_arr();
     let m2 = cm::Mat3::<S>::from(q2).to_arr();
-    let tol_k = 64.0 / S::eps().sqrt();
-    check_mat!(cx, S, m2, m1, 1.0, tol_k, "rotation_3d(into_angle_axis(q)) is the same rotation as q");
+    let tol_k = AA_K / sh.max(S::eps().sqrt());
+    check_mat!(cx, S, m2, m1, 1.0, tol_k, "rotation_3d(into_angle_axis(q)) is the same rotation as q (q={:?}, extracted angle {:?} axis {:?})", qa(q), a2, ax2a);
     // and q2 = +-q
     let (a, b) = (qa(q), qa(q2));
     let same = (0..4).all(|i| (a[i].f() - b[i].f()).abs() <= tol_k * S::eps());
@@ -353,22 +508,32 @@ pub fn property() -> Property {
     let b = "unit quaternion (rational point of S^3) applied to Vec3/Vec4 = q v q* (reference) = Mat3/Mat4::from(q) (both layouts); w bit-identical; (pq)v = p(qv); matrix is a proper rotation";
     tape!("action-rat", b, 64, 30_000, 1_000_000, action::<Rat>);
     tape!("action-f64", b, 96, 20_000, 500_000, action::<f64>);
-    let c = "rotation_from_to_3d (quaternion, Mat3, Mat4, both layouts): unit, maps `from` onto a positive multiple of `to` for generic, parallel and exactly antiparallel pairs (every 180-degree sub-branch)";
-    tape!("from-to-rat", c, 64, 40_000, 1_000_000, from_to::<Rat>);
-    tape!("from-to-f64", c, 96, 40_000, 1_000_000, from_to::<f64>);
-    tape!("from-to-f32", c, 96, 10_000, 250_000, from_to::<f32>);
-    let d = "into_angle_axis for angles in (-2pi, 2pi): unit axis, angle in [0, 2pi], rebuilding the rotation from them gives the same rotation (+-q)";
+    let c = "rotation_from_to_3d (quaternion, Mat3, Mat4, both layouts): unit, maps `from` onto a positive multiple of `to` (relative to |from||to|) for generic, parallel, exactly antiparallel (every 180-degree sub-branch), nearly parallel (angle down to 2^-45 / 2^-20) and nearly antiparallel (pi - delta, delta down to 8 sqrt(eps)) pairs, `from` and `to` scaled independently and exactly by 2^a, 2^b (result must not change)";
+    tape!("from-to-rat", c, 80, 40_000, 1_000_000, from_to::<Rat>);
+    tape!("from-to-f64", c, 128, 40_000, 1_000_000, from_to::<f64>);
+    tape!("from-to-f32", c, 128, 40_000, 1_000_000, from_to::<f32>);
+    let d = "into_angle_axis for angles in (-2pi, 2pi) incl. small (down to 2^-60 / 2^-30), next to a half turn and next to a full turn, q from rotation_3d or built without vek: finite, unit axis (any unit axis when w = +-1), angle in [0, 2pi], rebuilding the rotation from them gives the same rotation (+-q) within 64 eps / max(|sin(angle/2)|, sqrt(eps))";
     tape!("angle-axis-f64", d, 48, 40_000, 1_000_000, angle_axis::<f64>);
     tape!("angle-axis-f32", d, 48, 20_000, 500_000, angle_axis::<f32>);
+    let e = "unit quaternions by angle regime (small down to 2^-60 / 2^-30, next to a half / full turn, many turns; built without vek) applied to vectors scaled by 2^k: q*Vec3, q*Vec4, Mat3/Mat4::from(q) (both layouts, action and entries) against q (0,v) q* and the axis-angle definition in cancellation-free f64 form with tolerance 32 eps |v|; q*(2^k v) = 2^k (q*v) exactly; q applied 2..64 times step by step = composed quaternion = rotation by n*angle; (p*q)*v = p*(q*v); rotation_3d(angle, 2^j axis) components and action";
+    tape!("near-identity-f64", e, 192, 60_000, 2_000_000, regime::near_identity::<f64>);
+    tape!("near-identity-f32", e, 192, 60_000, 2_000_000, regime::near_identity::<f32>);
+    let f = "non-unit quaternions of tiny / huge norm (components exactly scaled by 2^a, 2^b): product, dot, inverse, magnitude, normalized commute bit for bit with the scaling; product vs the i,j,k table and inverse = conj/|q|^2 relative to the scaled magnitude; q q^-1 = q^-1 q = 1";
+    tape!("algebra-scale-rat", f, 48, 8_000, 500_000, regime::algebra_scale::<Rat>);
+    tape!("algebra-scale-f64", f, 48, 20_000, 1_000_000, regime::algebra_scale::<f64>);
+    tape!("algebra-scale-f32", f, 48, 20_000, 1_000_000, regime::algebra_scale::<f32>);
     tape!("conversions-sym", "conversions to/from Vec4, Vec3, (scalar, vector), from_xyzw, conjugate, identity are field-exact on opaque terms", 4, 2_000, 20_000, conversions);
     Property {
         id: "C05",
-        rule: "arbitrary quaternions with small rational/float components; unit quaternions from the rational parametrisation of S^3; direction pairs by class: exactly antiparallel (12 base vectors covering |x|>|z|, |x|<|z|, |x|=|z|, axis-aligned, scaled by independent rationals), parallel, generic constructed so that every square root is rational, random float pairs incl. nearly antiparallel; angles in (-2pi,2pi); non-trivial = all four components non-zero and pq != qp (algebra/action), from has >= 2 non-zero components (from-to), |angle| > 0.01 (angle-axis); distinct = distinct consumed tape prefix",
+        rule: "arbitrary quaternions with small rational/float components; unit quaternions from the rational parametrisation of S^3 (a quarter of them with the parameters scaled by 2^-k: next to +-1, +-i, +-j, +-k); direction pairs by class: exactly antiparallel (12 base vectors covering |x|>|z|, |x|<|z|, |x|=|z|, axis-aligned, scaled by independent rationals), parallel, generic constructed so that every square root is rational, random float pairs, nearly parallel and nearly antiparallel float pairs with a log-uniform enclosed angle, every pair additionally scaled by independent powers of two in half of the cases; angles in (-2pi,2pi) incl. log-uniform small ones and neighbours of pi and 2pi; regime checks: unit quaternions built without vek from (axis, angle) with angle regimes {small down to 2^-60 (f64) / 2^-30 (f32), next to a half turn, next to a full turn, next to a multiple of pi/2, many turns, ordinary} applied to vectors scaled by 2^k (|k| <= 200 / 24), non-unit quaternions scaled by 2^a (|a| <= 200 / 24 / 10); non-trivial = all four components non-zero and pq != qp (algebra/action), from has >= 2 non-zero components (from-to), |sin(angle/2)| > 8 sqrt(eps) (angle-axis), displacement |q*v - v| > 8 * tolerance and v without zero component (near-identity), all eight components non-zero (algebra-scale); distinct = distinct consumed tape prefix",
         assumptions: &[
             "rustc and the proptest runner/shrinker are trusted",
             "oracle: Hamilton product expanded over the i,j,k multiplication table (vkit::refmath::hamilton), rotation = q (0,v) q*",
-            "from-to in floats: tolerance widened by the conditioning factor |from||to| / |from/|from| + to/|to|| for nearly antiparallel pairs",
-            "angle-axis: acos near +-1 loses half the digits, so the rebuilt rotation is compared at 64*sqrt(eps)",
+            "near-identity oracle: q (0,v) q* = v + 2w(u x v) + 2u x (u x v) and Rodrigues with 1 - cos = 2 sin^2(angle/2), evaluated in f64 on the exact components handed to vek (for f32 the oracle is far more precise than the result; for f64 its own error is ~2 eps |v|); the comparison tolerance is 32 eps |v| = the rounding of two Hamilton products on a result of size |v| - a displacement below that is not resolvable by ANY implementation returning v + d in working precision, so rotation angles below ~32 eps are only checked through the matrix entries (off-diagonal entries relative to |xyz|), through rotation_3d's components (relative to |sin(angle/2)|) and through the exact scaling relations",
+            "exact scaling relations (q*(2^k v), products / inverse / magnitude / normalized of 2^k q, rotation_from_to_3d(2^a from, 2^b to), rotation_3d(angle, 2^j axis)) are compared bit for bit; exponent ranges are chosen so that no square or product leaves the normal range (f32: vectors 2^+-24, from/to 2^+-16; f64: 2^+-200); where a tiny random component can still underflow a few subnormal units (resp. one rounding flip) are tolerated. Overflow / underflow beyond those ranges is excluded (any implementation that squares lengths suffers it)",
+            "from-to in floats: w = |f||t| + f.t and f x t carry an absolute rounding error ~eps |f||t|, so the direction of the image is allowed eps * K * 2/|f^ + t^| for nearly antiparallel pairs; pairs that are opposite to within |f^ + t^|^2 <= 64 eps without being exactly opposite are excluded (discarded): there |f||t| + f.t has no significant bit left and the 180-degree guard `w < eps |f||t|` is decided by rounding noise (the GLM algorithm vek documents cannot do better; a different algorithm could, the property text does not demand one)",
+            "angle-axis: angle = 2 acos(w) turns an error eps in w into eps / sin(angle/2) in the angle and into sqrt(eps) at worst (w next to +-1), so the rebuilt rotation is compared at 64 eps / max(|sin(angle/2)|, sqrt(eps)); in particular for rotation angles below ~2 sqrt(eps) (w rounds to 1) the extracted angle is 0 and only 'identity to within sqrt(eps)' is asserted - the relative accuracy of a tiny extracted angle is NOT asserted (acos(w) cannot provide it; the vector part could)",
+            "non-unit quaternions applied to vectors are outside the property (docs: 'assuming the quaternion is normalized'); only unit quaternions (to rounding) are applied",
         ],
         checks,
         max_discard_frac: 0.2,
